@@ -17,6 +17,9 @@ def run(ctx):
     for q_, f_ in sorted(m.functions.items()):
         if f_.file.endswith("/state_distinguishability.py") and f_.parent is None and f_.param("vectors") is not None and f_.param("probs") is not None:
             r_parallel_families(ctx, f_, ["vectors", "probs"])
+            if f_.name.startswith("_"):
+                from ..rules import r_effect_free as _ref
+                _ref(ctx, f_, ["vectors", "probs"])
     ctx.rule("R-SDP", "S1-S7 on the four programs: POVM cone and completeness, dual feasibility for every state, senses, read-back order, returned optimum")
     ctx.rule("R-ENUM", "p_i paired with rho_i and M_i of the same index over all states")
     ctx.rule("R-THREAD", "solver / **kwargs / probs / dim reach all four programs; dispatch by (strategy, primal_dual); default prior uniform")
